@@ -110,6 +110,14 @@ def _traced_body(c, s, t, like, batches, bad, seen_inf_store, chk_store):
             logf.append(math.log((n - k) / n))
             lo, hi = min(logf), max(logf)
             z = float(H["logz"][i])
+            ninf_so_far = sum(k2 for _, k2 in batches[: j + 1])
+            if ninf_so_far > 0 and z >= -1e-12 and len(bad) < 5:
+                # "counted once" also means "not zero times": once a zero-likelihood draw has been observed, no later
+                # prior-phase record may claim that the whole prior is supported (every way of combining the observed
+                # batches - pooled counts, running means of the per-batch fractions - stays strictly below log 1)
+                bad.append(("excluded-mass-forgotten", f"warm-up iteration {i + 1}: recorded logZ(beta=0) = {z!r} although {ninf_so_far} zero-likelihood "
+                            f"draws had been observed by then (finite/total per batch {[(n2 - k2, n2) for n2, k2 in batches[:j + 1]]}; "
+                            f"recorded sequence {[round(float(q), 4) for q in [H['logz'][w] for w in warm[:j + 1]]]})"))
             if not (lo - 1e-9 <= z <= hi + 1e-9):
                 bad.append(("warmup-logz-outside-hull", f"warm-up iteration {i + 1}: recorded logZ(beta=0) = {z:.6f} outside "
                             f"[{lo:.6f}, {hi:.6f}] spanned by the observed finite fractions {[(n2 - k2, n2) for n2, k2 in batches[:j + 1]]}; "
